@@ -133,6 +133,27 @@ class Resolver:
         for name in list(a):
             if dotted(a[name]) in written:
                 del a[name]
+        # an alias denotes an object or a bound method: the name must be used as a callee or as the base of an
+        # attribute / subscript somewhere (a name only used as a value is a snapshot of that value)
+        used_as_object = set()
+        stack = [func]
+        while stack:
+            g = stack.pop()
+            stack.extend(g.nested.values())
+            for n in g.own_nodes():
+                if isinstance(n, ast.Call) and isinstance(n.func, ast.Name):
+                    used_as_object.add(n.func.id)
+                elif isinstance(n, (ast.Attribute, ast.Subscript)) and isinstance(n.value, ast.Name):
+                    used_as_object.add(n.value.id)
+                elif isinstance(n, (ast.For, ast.AsyncFor, ast.comprehension)) and isinstance(n.iter, ast.Name):
+                    used_as_object.add(n.iter.id)
+                elif isinstance(n, ast.Call):
+                    for arg in n.args:
+                        if isinstance(arg, ast.Name) and isinstance(n.func, ast.Name) and n.func.id in ('set', 'len', 'sorted', 'list'):
+                            used_as_object.add(arg.id)
+        for name in list(a):
+            if name not in used_as_object:
+                del a[name]
         self._alias_cache[func.key] = a
         return a
 
